@@ -28,11 +28,18 @@ Variable rank : schema -> nat.
 Variable R : nat.
 Hypothesis G : guarded defs W rank R.
 (* every schema of W that is not a reference (the siblings of $ref are ignored by both sides) is of the clean class *)
-Hypothesis Hclean : forall s, W s -> s_ref s = None -> local_clean fin allow_null allow_arr OR s.
+Hypothesis Hclean : forall s, W s -> s_ref s = None -> local_clean0 fin allow_null allow_arr OR s.
+(* the one condition that depends on the value - where a format sits next to a non-numeric type list, the value is one the
+   list accepts (the type.go:200 shortcut) - holds along the validation: F is closed under the visits both sides make *)
+Variable F : schema -> goval -> Prop.
+Hypothesis HFref : forall s n t d, F s d -> s_ref s = Some n -> lookup_def defs n = Some t -> F t d.
+Hypothesis HFfmt : forall t d, F t d -> s_ref t = None -> fmt_fits t d.
+Hypothesis HFg : forall t d c v, F t d -> s_ref t = None -> app_g OR t d c v -> F c v.
+Hypothesis HFu : forall t d c, F t d -> s_ref t = None -> In c (uk t) -> F c d.
 
 (* a chain of references, for both sides: L1 follows it in one step, L0 one reference per unit of fuel *)
 Lemma resolve_both : forall g s, W s -> (rank s <= g)%nat ->
-  exists t k, resolve defs g s = Ok t /\ W t /\ s_ref t = None /\ (rank t + k <= rank s)%nat /\
+  exists t k, resolve defs g s = Ok t /\ W t /\ s_ref t = None /\ (rank t + k <= rank s)%nat /\ (forall d, F s d -> F t d) /\
               forall f2 d, (k < f2)%nat -> d4 OR N defs f2 s d = d4_body OR N (d4 OR N defs (f2 - S k)) t d.
 Proof.
   destruct G as [_ [Gref _]].
@@ -43,39 +50,62 @@ Proof.
       intros f2 d Hf. destruct f2 as [|f]; [lia|]. cbn [d4]. rewrite E. replace (S f - 1)%nat with f by lia. reflexivity.
   - destruct (s_ref s) as [n|] eqn:E.
     + destruct (Gref s n Ws E) as [t1 [Ht1 [Wt1 Hlt]]]. cbn [resolve]. rewrite E, Ht1.
-      destruct (IH t1 Wt1) as [t [k [H1 [H2 [H3 [H4 H5]]]]]]; [lia|]. exists t, (S k). repeat split; auto; [lia|].
-      intros f2 d Hf. destruct f2 as [|f]; [lia|]. cbn [d4]. rewrite E, Ht1. rewrite (H5 f d); [|lia].
-      replace (S f - S (S k))%nat with (f - S k)%nat by lia. reflexivity.
+      destruct (IH t1 Wt1) as [t [k [H1 [H2 [H3 [H4 [H5 H6]]]]]]]; [lia|]. exists t, (S k). repeat split; auto; [lia | |].
+      * intros d Fd. apply H5. apply (HFref s n t1 d Fd E Ht1).
+      * intros f2 d Hf. destruct f2 as [|f]; [lia|]. cbn [d4]. rewrite E, Ht1. rewrite (H6 f d); [|lia].
+        replace (S f - S (S k))%nat with (f - S k)%nat by lia. reflexivity.
     + exists s, 0%nat. cbn [resolve]. rewrite E. repeat split; auto; [lia|].
       intros f2 d Hf. destruct f2 as [|f]; [lia|]. cbn [d4]. rewrite E. replace (S f - 1)%nat with f by lia. reflexivity.
 Qed.
 
-Theorem guarded_fragment_agrees : forall f1 f2 s d, W s -> jd d ->
+Lemma in_skipn' {A} (x : A) n l : In x (skipn n l) -> In x l.
+Proof. revert l; induction n as [|n IH]; intros l H; [exact H|]. destruct l; [exact H|]. right. apply IH. exact H. Qed.
+
+Lemma lookup_val_in' m k v : lookup_val m k = Some v -> In (k, v) m.
+Proof.
+  induction m as [|[k' v'] t IH]; cbn [lookup_val]; intros H; [discriminate|].
+  match type of H with (if ?c then _ else _) = _ => destruct c eqn:E end;
+    [apply Z.eqb_eq in E; injection H as H; subst; left; reflexivity | right; apply IH; exact H].
+Qed.
+
+(* the parts of a value are less deep than the value *)
+Lemma app_g_depth t d c v : app_g OR t d c v -> (goval_depth v < goval_depth d)%nat.
+Proof.
+  intros H. destruct H as [id l c v _ Hv | id l cs c v _ Hcv | id l a c cs v _ _ Hv | id m k c v _ Hl | id m pp k v _ Hkv _ | id m a c k v _ Hkv _ _].
+  - apply depth_elem. exact Hv.
+  - apply depth_elem. apply (in_combine_r _ _ _ _ Hcv).
+  - apply depth_elem. apply (in_skipn' v _ l Hv).
+  - apply (depth_member id m (k, v) (lookup_val_in' m k v Hl)).
+  - apply (depth_member id m (k, v) Hkv).
+  - apply (depth_member id m (k, v) Hkv).
+Qed.
+
+Theorem guarded_fragment_agrees : forall f1 f2 s d, W s -> F s d -> jd d ->
   (goval_depth d * S R + rank s < f1)%nat -> (goval_depth d * S R + rank s < f2)%nat ->
   forall p q, exists r, sv_validate OR N opt defs f1 s p q d = Ok r /\ d4 OR N defs f2 s d = Some (r_valid r).
 Proof.
-  induction f1 as [|g1 IH]; intros f2 s d Ws Hd Hf1 Hf2 p q; [lia|]. cbn [sv_validate].
+  induction f1 as [|g1 IH]; intros f2 s d Ws Fs Hd Hf1 Hf2 p q; [lia|]. cbn [sv_validate].
   pose proof (depth_pos d) as Hpos.
   assert (Hmul : (S R <= goval_depth d * S R)%nat) by (destruct (goval_depth d); [lia|]; cbn [Nat.mul]; lia).
   rewrite (eager_guarded defs W rank R G g1 s Ws); [|lia]. cbn [bind].
-  destruct (resolve_both g1 s Ws) as [t [k [Ht [Wt [Hnone [Hrk Hd4]]]]]]; [lia|]. rewrite Ht. cbn [bind].
-  rewrite (Hd4 f2 d); [|lia].
+  destruct (resolve_both g1 s Ws) as [t [k [Ht [Wt [Hnone [Hrk [HFt Hd4]]]]]]]; [lia|]. rewrite Ht. cbn [bind].
+  rewrite (Hd4 f2 d); [|lia]. pose proof (HFt d Fs) as Ft.
   destruct G as [GR [_ Gk]].
   apply (body_agree fin allow_null allow_arr OR N opt Hopt_items Hopt_array Hord Heq_sym (sv_validate OR N opt defs g1) (d4 OR N defs (f2 - S k))
            (fun c p' q' d' Hd' => no_important_error OR N opt defs g1 c p' q' d' (jd_nohdr fin allow_null allow_arr d' Hd'))
-           (fun v => (goval_depth v < goval_depth d)%nat) (fun v => (goval_depth v <= goval_depth d)%nat) t p q d (Hclean t Wt Hnone)).
+           (fun c v => (goval_depth v < goval_depth d)%nat /\ F c v) (fun c v => (goval_depth v <= goval_depth d)%nat /\ F c v)
+           t p q d (Hclean t Wt Hnone) (HFfmt t d Ft Hnone)).
   - eapply kids2_impl; [| |exact (Gk t Wt Hnone)].
-    + intros c Wc p' q' v Hjv Hv. pose proof (GR c Wc) as Hc.
+    + intros c Wc p' q' v Hjv [Hv Fv]. pose proof (GR c Wc) as Hc.
       assert ((goval_depth v * S R + S R <= goval_depth d * S R)%nat).
       { replace (goval_depth v * S R + S R)%nat with (S (goval_depth v) * S R)%nat by (cbn [Nat.mul]; lia). apply Nat.mul_le_mono_r. lia. }
-      apply IH; [exact Wc | exact Hjv | lia | lia].
-    + intros c [Wc Hc] p' q' v Hjv Hv.
+      apply IH; [exact Wc | exact Fv | exact Hjv | lia | lia].
+    + intros c [Wc Hc] p' q' v Hjv [Hv Fv].
       assert ((goval_depth v * S R <= goval_depth d * S R)%nat) by (apply Nat.mul_le_mono_r; exact Hv).
-      apply IH; [exact Wc | exact Hjv | lia | lia].
+      apply IH; [exact Wc | exact Fv | exact Hjv | lia | lia].
   - exact Hd.
-  - lia.
-  - intros id l ->. apply Forall_forall. intros v Hv. apply depth_elem. exact Hv.
-  - intros id m ->. apply Forall_forall. intros kv Hkv. apply (depth_member id m kv Hkv).
+  - intros c Hc. split; [lia | apply (HFu t d c Ft Hnone Hc)].
+  - intros c v Ha. split; [apply (app_g_depth t d c v Ha) | apply (HFg t d c v Ft Hnone Ha)].
 Qed.
 
 End Rec.
@@ -119,23 +149,123 @@ Hypothesis Hord : forall a b, finP fin_b a -> finP fin_b b -> n_lt N a b = negb 
 Hypothesis Heq_sym : forall a b, finP fin_b a -> finP fin_b b -> n_eq N a b = n_eq N b a.
 
 Definition lc_b (s : schema) : bool :=
-  match s_ref s with Some _ => true | None => local_clean_b fin_b allow_null allow_arr OR s end.
+  match s_ref s with Some _ => true | None => local_clean0_b fin_b allow_null allow_arr OR s end.
 
-(* the class: a rank exists (Schema/PipelineTermDec.v) and every schema below the root and the definitions is clean *)
-Definition cleang_b (K R n : nat) (root : schema) : bool :=
-  guarded_b defs K R n root && forallb (walk_b lc_b n) (roots defs root).
+Definition fmt_fits_b (s : schema) (d : goval) : bool :=
+  Z.eqb (s_format s) 0 || (contains k_number (s_types s) || contains k_integer (s_types s)) ||
+  (negb (match s_types s with [] => true | _ => false end) &&
+   (match d with VStr _ => contains k_string (s_types s) | _ => true end) &&
+   (match d with VArr _ _ => contains k_array (s_types s) | _ => true end)).
+
+Lemma fmt_fits_b_sound s d : fmt_fits_b s d = true -> fmt_fits s d.
+Proof.
+  unfold fmt_fits_b, fmt_fits. intros H. apply orb_true_iff in H. destruct H as [H | H].
+  - apply orb_true_iff in H. destruct H as [H | H]; [left; apply Z.eqb_eq; exact H | right; left; exact H].
+  - destruct (contains k_number (s_types s) || contains k_integer (s_types s)) eqn:En; [right; left; reflexivity|].
+    right. right. apply andb_true_iff in H. destruct H as [H H3]. apply andb_true_iff in H. destruct H as [H1 H2].
+    split; [reflexivity|]. split; [intros E; rewrite E in H1; discriminate|]. split.
+    + intros [x E]. subst d. exact H2.
+    + intros [id [l E]]. subst d. exact H3.
+Qed.
+
+(* the value-dependent condition along the visits of the validation: the same traversal as the two sides make *)
+Fixpoint fits_b (f : nat) (s : schema) (d : goval) {struct f} : bool :=
+  match f with
+  | O => false
+  | S f' =>
+      match s_ref s with
+      | Some n => match lookup_def defs n with Some t => fits_b f' t d | None => false end
+      | None =>
+          fmt_fits_b s d && forallb (fun c => fits_b f' c d) (uk s) &&
+          match d with
+          | VArr _ l =>
+              (match s_items_one s with Some c => forallb (fits_b f' c) l | None => true end) &&
+              (match s_items_tuple s with
+               | Some cs => forallb (fun cv => fits_b f' (fst cv) (snd cv)) (combine cs l) &&
+                            (match s_add_items s with Some (_, Some c) => forallb (fits_b f' c) (skipn (length cs) l) | _ => true end)
+               | None => true
+               end)
+          | VObj _ m =>
+              forallb (fun kc => match lookup_val m (fst kc) with Some v => fits_b f' (snd kc) v | None => true end) (s_props s) &&
+              forallb (fun kv => forallb (fun pp => negb (pmatch OR (fst kv) pp) || fits_b f' (snd pp) (snd kv)) (s_pat_props s) &&
+                                 (has_prop s (fst kv) || matched_any OR s (fst kv) ||
+                                  match s_add_props s with Some (_, Some c) => fits_b f' c (snd kv) | _ => true end)) m
+          | _ => true
+          end
+      end
+  end.
+
+Definition Fd (s : schema) (d : goval) : Prop := exists f, fits_b f s d = true.
+
+Lemma Fd_ref s n t d : Fd s d -> s_ref s = Some n -> lookup_def defs n = Some t -> Fd t d.
+Proof. intros [[|f] H] E Et; [discriminate|]. cbn [fits_b] in H. rewrite E, Et in H. exists f. exact H. Qed.
+
+Lemma Fd_body t d : Fd t d -> s_ref t = None -> exists f,
+  fmt_fits_b t d = true /\ forallb (fun c => fits_b f c d) (uk t) = true /\
+  match d with
+  | VArr _ l =>
+      (match s_items_one t with Some c => forallb (fits_b f c) l | None => true end) &&
+      (match s_items_tuple t with
+       | Some cs => forallb (fun cv => fits_b f (fst cv) (snd cv)) (combine cs l) &&
+                    (match s_add_items t with Some (_, Some c) => forallb (fits_b f c) (skipn (length cs) l) | _ => true end)
+       | None => true
+       end)
+  | VObj _ m =>
+      forallb (fun kc => match lookup_val m (fst kc) with Some v => fits_b f (snd kc) v | None => true end) (s_props t) &&
+      forallb (fun kv => forallb (fun pp => negb (pmatch OR (fst kv) pp) || fits_b f (snd pp) (snd kv)) (s_pat_props t) &&
+                         (has_prop t (fst kv) || matched_any OR t (fst kv) ||
+                          match s_add_props t with Some (_, Some c) => fits_b f c (snd kv) | _ => true end)) m
+  | _ => true
+  end = true.
+Proof.
+  intros [[|f] H] E; [discriminate|]. cbn [fits_b] in H. rewrite E in H. exists f.
+  apply andb_true_iff in H. destruct H as [H H3]. apply andb_true_iff in H. destruct H as [H1 H2]. auto.
+Qed.
+
+Lemma Fd_fmt t d : Fd t d -> s_ref t = None -> fmt_fits t d.
+Proof. intros H E. destruct (Fd_body t d H E) as [f [H1 _]]. apply fmt_fits_b_sound. exact H1. Qed.
+
+Lemma Fd_u t d c : Fd t d -> s_ref t = None -> In c (uk t) -> Fd c d.
+Proof. intros H E Hc. destruct (Fd_body t d H E) as [f [_ [H2 _]]]. exists f. apply (proj1 (forallb_forall _ _) H2 c Hc). Qed.
+
+Lemma Fd_g t d c v : Fd t d -> s_ref t = None -> app_g OR t d c v -> Fd c v.
+Proof.
+  intros H E Ha. destruct (Fd_body t d H E) as [f [_ [_ H3]]]. exists f.
+  destruct Ha as [id l c v E1 Hv | id l cs c v E2 Hcv | id l a c cs v E3 E2 Hv | id m k c v Hkc Hl | id m pp k v Hpp Hkv Hm | id m a c k v Ea Hkv Hhp Hma].
+  - apply andb_true_iff in H3. destruct H3 as [H3 _]. rewrite E1 in H3. apply (proj1 (forallb_forall _ _) H3 v Hv).
+  - apply andb_true_iff in H3. destruct H3 as [_ H3]. rewrite E2 in H3. apply andb_true_iff in H3. destruct H3 as [H3 _].
+    apply (proj1 (forallb_forall _ _) H3 (c, v) Hcv).
+  - apply andb_true_iff in H3. destruct H3 as [_ H3]. rewrite E2, E3 in H3. apply andb_true_iff in H3. destruct H3 as [_ H3].
+    apply (proj1 (forallb_forall _ _) H3 v Hv).
+  - apply andb_true_iff in H3. destruct H3 as [H3 _]. pose proof (proj1 (forallb_forall _ _) H3 (k, c) Hkc) as G. cbn [fst snd] in G. rewrite Hl in G. exact G.
+  - apply andb_true_iff in H3. destruct H3 as [_ H3]. pose proof (proj1 (forallb_forall _ _) H3 (k, v) Hkv) as G. cbn [fst snd] in G.
+    apply andb_true_iff in G. destruct G as [G _]. pose proof (proj1 (forallb_forall _ _) G pp Hpp) as G2. cbv beta in G2. cbn [fst snd] in G2. rewrite Hm in G2. exact G2.
+  - apply andb_true_iff in H3. destruct H3 as [_ H3]. pose proof (proj1 (forallb_forall _ _) H3 (k, v) Hkv) as G. cbn [fst snd] in G.
+    apply andb_true_iff in G. destruct G as [_ G]. rewrite Hhp, Hma, Ea in G. exact G.
+Qed.
+
+(* the class: a rank exists (Schema/PipelineTermDec.v), every schema below the root and the definitions is clean, and the
+   value fits the formats along the validation *)
+Definition cleang_b (K R n : nat) (root : schema) (d : goval) : bool :=
+  guarded_b defs K R n root && forallb (walk_b lc_b n) (roots defs root) && fits_b n root d.
 
 Theorem decided_fragment_agrees K R n root f1 f2 d :
-  cleang_b K R n root = true -> AgreementData.jd (finP fin_b) allow_null allow_arr d ->
+  cleang_b K R n root d = true -> AgreementData.jd (finP fin_b) allow_null allow_arr d ->
   (goval_depth d * S R + urank defs K root < f1)%nat -> (goval_depth d * S R + urank defs K root < f2)%nat ->
   forall p q, exists r, sv_validate OR N opt defs f1 root p q d = Ok r /\ d4 OR N defs f2 root d = Some (r_valid r).
 Proof.
-  intros H Hd Hf1 Hf2 p q. unfold cleang_b in H. apply andb_true_iff in H. destruct H as [Hg Hw]. rewrite forallb_forall in Hw.
+  intros H Hd Hf1 Hf2 p q. unfold cleang_b in H. apply andb_true_iff in H. destruct H as [H Hfit]. apply andb_true_iff in H. destruct H as [Hg Hw].
+  rewrite forallb_forall in Hw.
   apply (guarded_fragment_agrees (finP fin_b) allow_null allow_arr OR N opt defs Hopt_items Hopt_array Hord Heq_sym
-           (Wd defs root) (urank defs K) R (guarded_b_sound defs K R n root Hg)); try assumption.
-  - intros s [x [Hx Hdesc]] Hnone. apply local_clean_b_sound.
+           (Wd defs root) (urank defs K) R (guarded_b_sound defs K R n root Hg)) with (F := Fd); try assumption.
+  - intros s [x [Hx Hdesc]] Hnone. apply local_clean0_b_sound.
     pose proof (walk_b_holds lc_b n x s (Hw x Hx) Hdesc) as L. unfold lc_b in L. rewrite Hnone in L. exact L.
+  - exact Fd_ref.
+  - exact Fd_fmt.
+  - exact Fd_g.
+  - exact Fd_u.
   - exists root. split; [left; reflexivity | apply desc_refl].
+  - exists n. exact Hfit.
 Qed.
 
 End Decided.
